@@ -65,6 +65,7 @@ type FuncContract struct {
 	Invs         []Clause // closure-state invariants (over free variables): assumed at entry, proved at exit and at creation
 	Modifies     []ModLoc
 	ModAll       bool
+	ModExcept    []string // with ModAll: ghost names / pkg:<name> patterns that are NOT modified
 	ModNone      bool
 	NoPanic      bool
 	MayPanic     bool
@@ -93,6 +94,7 @@ type FuncContract struct {
 	FPMonotone   bool
 	FPInexact    bool
 	FPAbstract   bool // floats are unconstrained values (NaN/Inf included); only float-independent facts are provable
+	Contended bool // runs concurrently with writers of the mutexes it read-locks
 }
 
 type AssertHook struct {
@@ -224,7 +226,7 @@ var clauseKeywords = map[string]bool{
 	"props": true, "requires": true, "ensures": true, "onpanic": true, "modifies": true, "nopanic": true,
 	"maypanic": true, "recovers": true, "loop": true, "dyncall": true, "ghost": true, "assert": true,
 	"sweep": true, "trusted": true, "unreachable": true, "note": true, "implements": true, "arith": true,
-	"panics": true, "inv": true, "hyp": true, "goal": true, "vars": true, "thread-root": true, "assume-ranges": true, "fp-monotone": true, "fp-inexact": true, "fp-abstract": true,
+	"panics": true, "inv": true, "hyp": true, "goal": true, "vars": true, "thread-root": true, "assume-ranges": true, "fp-monotone": true, "fp-inexact": true, "fp-abstract": true, "contended": true,
 }
 
 func firstWord(s string) (string, string) {
@@ -507,6 +509,15 @@ func (cs *ContractSet) parseClause(fc *FuncContract, c rawLine, path string) err
 			fc.ModAll = true
 			break
 		}
+		if strings.HasPrefix(b, "allbut(") && strings.HasSuffix(b, ")") {
+			// everything may change except the listed ghost variables and the fields of struct types
+			// declared in the listed packages (pkg:<name>)
+			fc.ModAll = true
+			for _, x := range splitTop(b[len("allbut("):len(b)-1], ',') {
+				fc.ModExcept = append(fc.ModExcept, strings.TrimSpace(x))
+			}
+			break
+		}
 		if b == "nothing" {
 			fc.ModNone = true
 			break
@@ -543,6 +554,9 @@ func (cs *ContractSet) parseClause(fc *FuncContract, c rawLine, path string) err
 		fc.FPInexact = true
 	case "fp-abstract":
 		fc.FPAbstract = true
+	case "contended":
+		// may run while another thread write-locks the same mutexes: recursive read locking can then deadlock
+		fc.Contended = true
 	case "note":
 		fc.Notes = append(fc.Notes, body)
 	case "arith":
